@@ -187,7 +187,7 @@ def find_fn(toks, start, end, name, depth0):
             depth += 1
         elif k == 'p' and t in CLOSE:
             depth -= 1
-        elif depth == depth0 and k == 'id' and t == 'fn':
+        elif (depth0 is None or depth == depth0) and k == 'id' and t == 'fn':
             m = next_sig(toks, j + 1)
             if toks[m][1] == name:
                 b = _walk_back_quals(toks, j, start)
